@@ -4,8 +4,13 @@
 
 use cfg_if::cfg_if;
 
+// The imports follow the same precedence as the type selection below: `fullmerkletree` implies
+// `default` (and with it `pmtree-ft`), so it has to be tested first.
 cfg_if! {
-    if #[cfg(feature = "pmtree-ft")] {
+    if #[cfg(feature = "fullmerkletree")] {
+        use crate::hashers::{PoseidonHash};
+        use utils::merkle_tree::*;
+    } else if #[cfg(feature = "pmtree-ft")] {
         use crate::pm_tree_adapter::*;
     } else {
         use crate::hashers::{PoseidonHash};
